@@ -648,6 +648,8 @@ pub fn run(ctx: &mut Ctx) {
         ("seeds", 50u64),
         ("wmodel", 20),
         ("asm.info", 20),
+        ("asm.info.with_ranges", 60),
+        ("asm.info.with_loclist", 60),
         ("asm.line", 20),
         ("asm.cfi.debug_frame", 10),
         ("asm.cfi.eh_frame", 10),
